@@ -1,3 +1,4 @@
+import RossModel.Lemmas.SourceTie
 import RossModel.Lemmas.Event
 import RossModel.Lemmas.Layout
 /-!
@@ -34,5 +35,10 @@ theorem C11_refDecode_encode (pad : Pad) (e : Event) (h : e.WF) : refDecode e.ki
 theorem C11_codes (k : Kind) : k.code = publishedCode k := Ross.code_published k
 
 theorem C11_codes_injective (k₁ k₂ : Kind) (h : k₁.code = k₂.code) : k₁ = k₂ := Ross.code_injective k₁ k₂ h
+
+/-! ### tie to the source text (constants regenerated from /repo by `bin/extract` on every run) -/
+/-- the event code constants of `src/event/event_code.rs` are the model's (= the published table, `C11_codes`), every
+encoder and decoder uses the constant of its own kind, and the brightness / relay tags are the model's -/
+theorem C11_src_tables : (SrcTie.codesOk && SrcTie.constUseOk && SrcTie.bcmTagsOk && SrcTie.relayTagsOk) = true := by decide
 
 end Ross.Props
